@@ -152,6 +152,14 @@ Definition not_addpath (e : emap) : Prop := match e with EAddPath _ => False | _
 (* the neighbour holds a route *)
 Definition has_entry (v : option (list attr)) : bool := match v with Some _ => true | None => false end.
 
+(* the path ids an Add-Path family map records for a destination (ExportMap::sent_path_ids) *)
+Definition ap_ids (m : list (N * list N)) (d : N) : list N :=
+  match alookup d m with Some v => v | None => [] end.
+
+(* nothing, or a copy that carries LLGR_STALE *)
+Definition stale_or_none (v : option (list attr)) : Prop :=
+  match v with Some a => carries_llgr_stale a | None => True end.
+
 (* an operation that concerns (dest, pid) *)
 Definition touches (d pid : N) (op : sinkop) : bool :=
   match op with
